@@ -80,7 +80,32 @@ let psize toks =
            else string_of_int (int_of_z (fr_parse_size p bs)))
   | _ -> failwith "psize args"
 
+(* bins <udp datagram> <number> <value> : the byte-level coap_insert_option (InsertBytes.bi_insert)
+   on the option+payload area of a datagram the parser accepts *)
+let bins toks =
+  match toks with
+  | [b; n; v] ->
+      let bs = bytes_of_tok b in
+      let num = zi n in
+      let vb = bytes_of_tok v in
+      (match parse UDP bs with
+       | None -> "REJECT"
+       | Some m ->
+           if int_of_z num >= int_of_z (last_num m.m_opts) then "append"
+           else
+             let b0 = List.hd bs in
+             let area = drop (z_of_int 4) bs in
+             (match parse_token (z_of_int ((int_of_z b0) land 15)) area with
+              | None -> "REJECT"
+              | Some (_, rest) ->
+                  (match bi_insert rest num vb with
+                   | None -> "r=0 area=" ^ hex_of_bytes rest
+                   | Some a ->
+                       Printf.sprintf "r=%d area=%s" (List.length a - List.length rest + 0) (hex_of_bytes a))))
+  | _ -> failwith "bins args"
+
 let () =
+  register "bins" bins;
   register "psize" psize;
   register "optrt" optrt;
   register "c01" c01; register "c03" c03; register "optparse" optparse; register "optenc" optenc
